@@ -66,7 +66,7 @@ def run(ck):
         if isinstance(h, list) and tuple(h) not in seen and any(c > NG for c in h):
             seen.add(tuple(h))
             longs.append({"h": h, "twin": [c for c in h if c <= NG]})
-    n = 600 if quick else len(hists)
+    n = 600 if quick else 9000          # (all 45k histories of length 3 took 52 minutes; length <= 2 stays exhaustive)
     len3 = [h for h in hists if len(h["h"]) == 3]
     len2 = [h for h in hists if len(h["h"]) == 2]
     n2 = 600 if quick else len(len2)
@@ -107,9 +107,9 @@ def run(ck):
             failing_calls=len(w.fail_calls()))
     ck.sample({"history": [names[c - 1] for c in evs[7]["h"]], "twin": [names[c - 1] for c in evs[7]["twin"]],
                "outcomes": evs[7]["outcomes"], "probe0_A": evs[7]["pa"][0]})
-    ck.cov["exhaustive"] = not quick
+    ck.cov["exhaustive"] = False
     ck.cov["rule"] = ("fault histories enumerated by TLC (all sequences of length <= 3 over 6 good + 30 failing calls with >= 1 failing "
-                      "call; length 3 sampled in quick; simulated length 7) x 28 probes in two execution orders, twin run without the failing calls. "
+                      "call; length <= 2 exhaustive, length 3 sampled (600 quick / 9000 thorough); simulated length 7) x 28 probes in two execution orders, twin run without the failing calls. "
                       "non-trivial = distinct histories in which at least one call actually raised")
     ck.assumptions += ["harness/envcalls.py catalogue of failing calls covers: ill-typed construction, sort-breaking substitution at 5 "
                        "depths, exception inside a walk, an operator without handler met in the middle of a traversal (6 walkers), undefined symbol, malformed SMT-LIB, HR syntax error"]
